@@ -108,6 +108,9 @@ type c04case struct {
 	devSecret string
 	// platform: the driver is built by platform.NewPlatform(platform) instead of network.NewDriver
 	platform string
+	// caseSwapped: how many prompts were replaced by variants containing a not-contains entry in
+	// flipped case
+	caseSwapped int
 }
 
 // the sentinel the driver resets CurrentPriv to, as the source says now
@@ -1140,15 +1143,42 @@ ops:
 
 func c04hexS(s string) string { return vlib.Hex([]byte(s)) }
 
-// c04matrix[i][j]: does level i accept the prompt of level j — the code's own predicate
-// (determineCurrentPriv): not-contains, then the pattern, with Go's regexp.
+// c04containsAny: the not-contains veto as the property reads it (and as the regenerated body of
+// util.StringContainsAny is proved to be, `generated_stringContainsAny_eq`): some entry occurs in
+// the prompt as a byte-exact substring. Deliberately NOT the library function: a change of its
+// semantics (case folding, trimming, …) must show up as a difference, not move the specification.
+func c04containsAny(s string, l []string) bool {
+	for _, x := range l {
+		if strings.Contains(s, x) {
+			return true
+		}
+	}
+	return false
+}
+
+// c04swapCase flips the case of every ASCII letter.
+func c04swapCase(s string) string {
+	b := []byte(s)
+	for i, c := range b {
+		switch {
+		case c >= 'a' && c <= 'z':
+			b[i] = c - 32
+		case c >= 'A' && c <= 'Z':
+			b[i] = c + 32
+		}
+	}
+	return string(b)
+}
+
+// c04matrix[i][j]: does level i accept the prompt of level j: the not-contains veto (byte-exact
+// substrings), then the pattern with Go's regexp.
 func c04matrix(cs c04case) [][]bool {
 	m := make([][]bool, len(cs.levels))
 	for i, l := range cs.levels {
 		re := regexp.MustCompile(l.pattern)
 		m[i] = make([]bool, len(cs.levels))
 		for j, o := range cs.levels {
-			m[i][j] = !util.StringContainsAny(o.prompt, l.notContains) && re.MatchString(o.prompt)
+			m[i][j] = !c04containsAny(o.prompt, l.notContains) && re.MatchString(o.prompt)
 		}
 	}
 	return m
@@ -1364,6 +1394,7 @@ func runC04(c *ctx) {
 		"x segmentation classes; random trees to 9 levels with random operation sequences (<=12 ops, unknown levels included); the IOS-like tree with the real overlapping patterns; " +
 		"sibling levels sharing one prompt (2-3 children of one parent, optional authenticated edge) with >=20 hops between the siblings per session; " +
 		"explicit targets: SendConfig(s)/SendConfigsFromFile/SendInteractive with WithPrivilegeLevel(t) for every level t, with 0-3 other operation options and the level option at every position among them; " +
+		"prompts / hostnames that contain a level's not-contains entry in a DIFFERENT case (IOS-like tree with extra not-contains entries; every embedded definition with case-swapped prompts); " +
 		"secondary secrets from a boundary-value pool (surrounding / inner blanks and tabs, 300 bytes, non-ASCII, %-verbs, quotes, regex metacharacters, level names, prompt-like text) set through options.WithAuthSecondary, the device comparing byte-exactly; " +
 		"out-of-quantifier streams (payload = transition command, ambiguous interior levels / ambiguous start) compared for information. non-trivial = in-domain session with at least one acquisition of >=1 hop; distinct by case line"
 	if c.replay != "" {
@@ -1431,6 +1462,9 @@ func runC04(c *ctx) {
 	for i := c.n(6, 40); i > 0; i-- {
 		cases = append(cases, c04nosecret(c.rng.U64()))
 	}
+	for i := c.n(60, 600); i > 0; i-- {
+		cases = append(cases, c04nccase(c.rng.U64(), i))
+	}
 	for i := c.n(30, 300); i > 0; i-- {
 		cases = append(cases, c04pfault(c.rng.U64(), i))
 	}
@@ -1439,7 +1473,7 @@ func runC04(c *ctx) {
 	}
 	for _, pf := range c04platforms() {
 		for i := c.n(2, 12); i > 0; i-- {
-			cases = append(cases, c04platform(pf, c.rng.U64(), 12))
+			cases = append(cases, c04platform(pf, c.rng.U64(), 12+i%2))
 		}
 	}
 	c04check(c, cases)
@@ -1473,6 +1507,8 @@ func c04replay(line string) (c04case, bool) {
 		switch f[1] {
 		case "secret":
 			return c04secret(seed, atoi(f[3])), true
+		case "nccase":
+			return c04nccase(seed, atoi(f[3])), true
 		case "nosecret":
 			return c04nosecret(seed), true
 		case "script":
